@@ -4,6 +4,7 @@ model (and, replayed by the harness on every run, of the implementation).  Each 
 known_findings.txt with the same id as the `finding_replays` entry of py/props/c20.py.
 -/
 import WpModel.Model.Resources
+import WpModel.Model.ResourcesDoc
 
 namespace Wp.Witness.C20
 open Wp Wp.Res
@@ -66,5 +67,52 @@ theorem xml_accepted_as_image :
       ⟨"http://a.test/x.png", .fromImage, none⟩).2.2 = .ok (some (.svg 21)) ∧
     handleImg (some "http://a.test/x.png") (some "ALT") (some (.svg 21)) = [.replaced] ∧
     handleImg none (some "ALT") none = [.altText "ALT"] := ⟨rfl, by decide, by decide⟩
+
+/-- finding `svg-image-without-href`.  Drawing `<svg><image width=… height=…/></svg>` (an `<image>`
+without `href`) calls `get_image_from_uri(url=None)`: the caller's fetcher is handed `None` — not an
+absolute URL, not named by the document — and `'None from-image'` becomes a cache key. -/
+theorem svg_image_without_href_calls_fetcher :
+    (Doc.drawSvg (fun _ => .raises ⟨"LookupError", "unknown"⟩) ⟨false, false⟩ [] [.image none]) =
+      ([("None from-image", none)], [.call "None"]) := rfl
+
+/-- finding `svg-use-bypasses-fetch`.  An external `<use href="other.svg#a">` calls the fetcher directly
+(`svg.url_fetcher(url)`), not through `fetch`: the file object it returns is never closed (compare
+`fetch_funnel_closes_once`), and the response is passed as a dict to `SVG(…)`, which always fails, so the
+reference can never be shown. -/
+theorem svg_use_never_closes :
+    let fetcher : Fetcher := fun _ => .resp ⟨false, some ⟨none, false⟩, some "image/svg+xml", none, xhtml⟩
+    (Doc.drawSvg fetcher ⟨false, false⟩ [] [.useExternal "http://a.test/o.svg#a"]).2 = [.call "http://a.test/o.svg#a"] ∧
+    (fetch (fetcher "http://a.test/o.svg#a") "http://a.test/o.svg#a" readAll).1 =
+      [.call "http://a.test/o.svg#a", .body, .close] := ⟨rfl, rfl⟩
+
+/-- `@import` chains addressed by URL (a graph, unlike the tree of `Sheet`): the URLs fetched when the
+sheet at `url` is loaded, with `fuel` bounding the Python recursion depth. -/
+def importFetches (imports : String → List String) : Nat → String → Except Exc (List String)
+  | 0, _ => .error ⟨"RecursionError", "maximum recursion depth exceeded"⟩
+  | fuel + 1, url =>
+    (imports url).foldlM (fun acc u => (importFetches imports fuel u).map (acc ++ ·)) [url]
+
+/-- finding `import-cycle-recursion`.  A stylesheet that imports itself (or any `@import` cycle) is
+fetched again and again — nothing remembers the URLs being imported — until Python's recursion limit:
+`RecursionError`, whatever the limit, escapes from `find_stylesheets` and aborts the render. -/
+theorem import_cycle_never_terminates (fuel : Nat) :
+    importFetches (fun _ => ["http://a.test/a.css"]) fuel "http://a.test/a.css" =
+      .error ⟨"RecursionError", "maximum recursion depth exceeded"⟩ := by
+  induction fuel with
+  | zero => rfl
+  | succ n ih => simp [importFetches, List.foldlM, ih, Except.map, bind, Except.bind]
+
+/-- finding `svg-self-reference-hang`.  Number of `SVGImage.draw` calls for an SVG with `k` `<image>`
+elements that point at the SVG itself, when the recursion is cut at depth `n` (each `RecursionError` is
+swallowed by the enclosing `draw`, which goes on with its next element): with two self-references
+the work doubles at every level — with Python's limit of 1000 frames the drawing never finishes. -/
+def selfDraws (k : Nat) : Nat → Nat
+  | 0 => 1
+  | n + 1 => 1 + k * selfDraws k n
+
+theorem svg_self_reference_exponential (n : Nat) : 2 ^ n ≤ selfDraws 2 n := by
+  induction n with
+  | zero => decide
+  | succ n ih => simp only [selfDraws, Nat.pow_succ]; omega
 
 end Wp.Witness.C20
